@@ -111,7 +111,12 @@ def gen_codec(rng, tier, mult):
             for _ in range(r.range(4, 10)):
                 k = r.below(3)
                 if k == 0:
-                    a = r.bytes(4) if r.chance(3, 4) else bytes(r.choice([0, 1, 9, 10, 99, 100, 199, 200, 255]) for _ in range(4))
+                    if r.chance(1, 5):
+                        # the values an address-parsing function may use as a sentinel: all ones (INADDR_NONE), all zeros, neighbours
+                        a = r.choice([b"\xff\xff\xff\xff", b"\xff\xff\xff\xfe", b"\x00\x00\x00\x00", b"\x00\x00\x00\x01",
+                                      b"\x7f\x00\x00\x01", b"\xff\x00\x00\x00", b"\x00\xff\xff\xff", b"\x80\x00\x00\x00"])
+                    else:
+                        a = r.bytes(4) if r.chance(3, 4) else bytes(r.choice([0, 1, 9, 10, 99, 100, 199, 200, 255]) for _ in range(4))
                     s = b"[%d.%d.%d.%d]:%d" % (a[0], a[1], a[2], a[3], cm.gen_port(r))
                 elif k == 1:
                     s = b"[" + cm.v6_text(r, cm.gen_v6_bytes(r)) + b"]:" + str(cm.gen_port(r)).encode()
